@@ -37,7 +37,7 @@ ASSUMPTIONS = [
 FLOORS = {"programs:NONTRIVIAL": 0.1}
 
 OPS = ["new_leaf", "new_inner", "attach", "detach", "detach_self", "replace_prop", "replace_child", "replace_seq",
-       "replace_with", "replace_with_none", "duplicate", "transform_visitor", "transformer", "new_detached"]
+       "replace_with", "replace_with_none", "duplicate", "transform_visitor", "transformer", "new_detached", "equal_siblings"]
 
 
 class Inconclusive(Exception):
@@ -81,7 +81,13 @@ class Runner:
 
     def op_new_inner(self, k: int, sels: list[int], v: int, o: int) -> None:
         w = self.w
-        if k % 4 == 3:
+        if k % 4 == 3 and v % 2:
+            # a class whose child field is excluded from ==: stacked, a node equals its own parent
+            ch = w.pick_children(sels[:1], set(), ("LHide",)) or w.pick_children(sels[:1], set())
+            n = L.cls("LHide")(kid=ch[0] if ch else None, v=0, origin=w.origin(0))
+            exp = [(ch[0], "kid", None)] if ch else []
+            self.lab.tag_if(bool(ch) and type(ch[0]).__name__ == "LHide", "node-equal-to-its-parent")
+        elif k % 4 == 3:
             ch = w.pick_children(sels[:1], set())
             if not ch:
                 return
@@ -110,7 +116,9 @@ class Runner:
                 self.lab.tag("empty-string-id")
             if xtra is not None:
                 extra["extra"] = xtra
-            n = L.cls("LInnerX" if xtra is not None else "LInner")(req=req, opt=opt, items=items, lst=lst, un=un, oseq=oseq,
+            cn = "LInnerX" if xtra is not None else ("LFalsy" if (k + v) % 4 == 3 else "LInner")
+            self.lab.tag_if(cn == "LFalsy", "falsy-inner-node")
+            n = L.cls(cn)(req=req, opt=opt, items=items, lst=lst, un=un, oseq=oseq,
                                                                     v=v % 3, origin=w.origin(o), **extra)
             exp = ([(req, "req", None)] if req is not None else []) + ([(opt, "opt", None)] if opt is not None else []) + \
                 [(x, "items", i) for i, x in enumerate(items)] + [(x, "lst", i) for i, x in enumerate(lst)] + \
@@ -123,6 +131,22 @@ class Runner:
             require(c.parent is n and not c.detached, "constructor-attaches-children", f"step {w.step_no} {fn}[{i}]")
         w.hold(n)
         self.lab.tag_if(any(len(E.subtree(c)) > 1 for c, _, _ in exp), "inner-over-subtrees")
+
+    def op_equal_siblings(self, k: int, v: int, o: int) -> None:
+        """a tuple / list field holding content-equal siblings of one origin (== to each other) after
+        another element; removing or replacing an earlier element must move exactly the later ones"""
+        w = self.w
+        first = L.cls("LLeaf")(v=(v + 1) % 3, origin=w.origin(o + 1))
+        twins = [L.cls("LLeaf")(v=v % 3, origin=w.origin(o)) for _ in range(2 + k % 2)]
+        seq = [first, *twins] if k % 4 < 2 else [twins[0], first, *twins[1:]]
+        kw = {"items": tuple(seq)} if k % 2 else {"lst": list(seq)}
+        w.hold(L.cls("LInner")(v=v % 3, origin=w.origin(o), **kw))
+        self.lab.tag("equal-siblings")
+        target = first if (k // 4) % 2 == 0 else seq[0]
+        if (k // 8) % 2:
+            target.replace_with(L.cls("LLeafB")(s="r", origin=w.origin(o)))
+        else:
+            target.replace_with(None)
 
     def op_attach(self, s: int) -> None:
         w = self.w
@@ -211,13 +235,13 @@ class Runner:
 
     def op_replace_child(self, s: int, cs: int, which: int) -> None:
         w = self.w
-        n = w.sel(s, lambda x: type(x).__name__ in ("LInner", "LInnerX", "LReq"))
+        n = w.sel(s, lambda x: type(x).__name__ in ("LInner", "LInnerX", "LFalsy", "LReq"))
         if n is None:
             return
         anc = {id(a) for a in w.ancestors_of(n)} | {id(x) for x in E.subtree(n)}
         fn = "req" if type(n).__name__ == "LReq" else ["req", "opt", "un", "extra" if type(n).__name__ == "LInnerX" else "opt"][which % 4]
         want = L.UN_CLASSES if fn == "un" else None
-        if which % 5 == 4 and type(n).__name__ in ("LInner", "LInnerX"):
+        if which % 5 == 4 and type(n).__name__ in ("LInner", "LInnerX", "LFalsy"):
             self._replace(n, {fn: None})
             return
         ch = w.pick_children([cs], anc, want)
@@ -227,7 +251,7 @@ class Runner:
 
     def op_replace_seq(self, s: int, cs: list[int], mode: int) -> None:
         w = self.w
-        n = w.sel(s, lambda x: type(x).__name__ in ("LInner", "LInnerX"))
+        n = w.sel(s, lambda x: type(x).__name__ in ("LInner", "LInnerX", "LFalsy"))
         if n is None:
             return
         anc = {id(a) for a in w.ancestors_of(n)} | {id(x) for x in E.subtree(n)}
@@ -309,7 +333,7 @@ class Runner:
     def op_replace_with_none(self, s: int) -> None:
         w = self.w
         n = w.sel(s, lambda x: not x.detached and (x.parent is None or x.parent_field.name in ("items", "lst", "opt", "un", "oseq", "extra")
-                                                   or (x.parent_field.name == "req" and type(x.parent).__name__ == "LInner")))
+                                                   or (x.parent_field.name == "req" and type(x.parent).__name__ in ("LInner", "LFalsy", "LInnerX"))))
         if n is None:
             return
         p, pf, pi = n.parent, n.parent_field, n.parent_index
@@ -520,6 +544,7 @@ def st_program(ctx: Ctx):
         st.tuples(st.just("replace_with_none"), s),
         st.tuples(st.just("replace_with_twin_inside"), s),
         st.tuples(st.just("duplicate"), s, st.booleans()),
+        st.tuples(st.just("equal_siblings"), small, small, small),
         st.tuples(st.just("transform_visitor"), s, small),
         st.tuples(st.just("transformer"), s, small),
     ]
@@ -528,4 +553,48 @@ def st_program(ctx: Ctx):
     return st.tuples(start, rest).map(lambda t: {"ops": t[0] + t[1]})
 
 
-PARTS = [Part("programs", check_program, strategy=st_program, quick=3200, thorough=96000)]
+def enum_deep(ctx: Ctx):
+    for shape in ("req", "items", "lst", "mixed"):
+        for factor in ((2, 4) if ctx.thorough else (2,)):
+            yield {"shape": shape, "factor": factor}
+
+
+def check_deep(data: dict, lab: Labels) -> None:
+    """an attached chain far deeper than the recursion limit: parent links, ancestors, get_depth and
+    is_ancestor agree with the chain (calculate_xpath, detach and duplicate recurse once per level
+    by construction and are not asserted here)"""
+    import sys
+
+    from pyoak.legacy.node import AwareASTNode
+
+    with warnings.catch_warnings():
+        warnings.simplefilter("ignore", DeprecationWarning)
+        nodes = L.build_chain(sys.getrecursionlimit() * data["factor"] + 37, data["shape"])
+        lab.tag("deep-chain")
+        lab.sample_class = "deep"
+        n_all = len(nodes)
+        lim = sys.getrecursionlimit()
+        for k in sorted({0, 1, n_all // 2, lim - 1, lim, lim + 1, n_all - 2, n_all - 1}):
+            n = nodes[k]
+            require(not n.detached and AwareASTNode.get_any(n.id) is n, "lookup-attached", f"level {k}")
+            require(n.parent is (nodes[k - 1] if k else None), "child-does-not-report-parent", f"level {k}")
+            anc = list(n.ancestors())
+            require(len(anc) == k and all(a is e for a, e in zip(anc, reversed(nodes[:k]))), "ancestors", f"level {k}")
+            require(n.get_depth() == k, "get_depth", f"level {k}: {n.get_depth()}")
+            for j in sorted({0, k // 2, max(k - 1, 0)}):
+                if j < k:
+                    require(nodes[j].is_ancestor(n) is True and n.is_ancestor(nodes[j]) is False, "is_ancestor", (k, j))
+                    require(n.get_depth(relative_to=nodes[j]) == k - j, "get_depth-relative", (k, j))
+        # a change at the bottom propagates to the very top
+        top_cid = nodes[0].content_id
+        leaf = nodes[-1]
+        new_leaf = leaf.replace(v=leaf.v + 1)
+        require(nodes[0].content_id != top_cid and new_leaf.parent is nodes[-2], "content_id-not-propagated", "deep chain")
+        lab.nontrivial = True
+        for n in nodes:  # unregister without recursion
+            n.detach_self()
+
+
+PARTS = [Part("programs", check_program, strategy=st_program, quick=3200, thorough=96000),
+         Part("deep", check_deep, enumerate=enum_deep,
+              exhaustive_note="4 chain shapes x depth 2x (thorough: and 4x) the recursion limit")]
